@@ -485,4 +485,30 @@ Section Facts.
     - step_bind E. inv_ok E. eauto.
     - inv_ok E. reflexivity.
   Qed.
+
+  (* ------------------------------------------------------------------ exactness of stopping, generically *)
+  Lemma firstn_map {A B} (g : A -> B) j (l : list A) : firstn j (map g l) = map g (firstn j l).
+  Proof. revert l. induction j as [|j IH]; intros [|x l]; cbn; try reflexivity. rewrite IH. reflexivity. Qed.
+
+  Lemma ended_exact s0 n tr sE b (P : list ev -> bool) :
+    ended s0 n tr sE b ->
+    (forall tr', tr' <> [] -> forall b', stop_after s0 tr' = Ok b' -> b' = P tr') ->
+    (forall j, (0 < j < length tr)%nat -> P (firstn j tr) = false) /\
+    (zlen tr = n \/ (tr <> [] /\ P tr = true)) /\ zlen tr <= n.
+  Proof.
+    intros He HP. pose proof (ended_stops _ _ _ _ _ He) as [Hf Ht].
+    pose proof (ended_traced _ _ _ _ _ He) as (_ & Hle & Hfull).
+    destruct b.
+    - destruct (Ht eq_refl) as (Hlast & Hnp & Hne). split.
+      + intros j Hj. destruct (exists_last Hne) as (tr0 & e & ->). rewrite removelast_last in Hnp.
+        rewrite app_length in Hj. cbn in Hj.
+        rewrite firstn_app. replace (j - length tr0)%nat with 0%nat by lia. cbn. rewrite app_nil_r.
+        symmetry. apply HP; [|apply Hnp; lia].
+        intros E. apply (f_equal (@length ev)) in E. rewrite firstn_length in E. cbn in E. lia.
+      + split; [|assumption]. right. split; [assumption|]. symmetry. apply HP; assumption.
+    - split.
+      + intros j Hj. symmetry. apply HP; [|apply (Hf eq_refl); lia].
+        intros E. apply (f_equal (@length ev)) in E. rewrite firstn_length in E. cbn in E. lia.
+      + split; [|assumption]. left. apply Hfull. reflexivity.
+  Qed.
 End Facts.
